@@ -293,9 +293,9 @@ let cmd_flowobs () =
            else "agree") in
       let jobs = String.concat ";" (List.map (fun x ->
         show_fid x ^ ":" ^ String.concat "," (List.sort compare (List.map show_fid (op_deps f x)))) (op_jobs f)) in
-      Printf.printf "ERR=%s ; RES=%s ; CALLS=%s ; BLOCKED=%s ; OP=%s ; UNIQ=%b ; JOBS=%s\n"
+      Printf.printf "ERR=%s ; RES=%s ; CALLS=%s ; BLOCKED=%s ; OP=%s ; UNIQ=%b ; PROV=%b ; JOBS=%s\n"
         (if fails = [] then "nil" else String.concat "|" fails) res (String.concat ";" cs) (String.concat "," bl)
-        agree (op_uniq f) jobs
+        agree (op_uniq f) (op_prov f) jobs
     done
   with End_of_file -> ()
 
